@@ -230,3 +230,23 @@ def check_failure_release(ck, prog, rule):
                   detail=f"spawn can return an error after acquiring the {name} without releasing it (leak per failed spawn)",
                   path=cfg.render_path(path) if path else None)
 
+
+
+def check_tls_outlives_user_fn(ck, prog, rule):
+    """the thread-local block is still allocated while the user's function runs: the panic handler finds the thread's stack and join
+    block through it (and frees it itself), so the thread wrapper may free it only AFTER the user function has returned.
+    Shared by C05.4 (a panicking thread must still end with `join() == None`) and C06.3 (freed exactly once)."""
+    from .c12 import mentions
+    cl = prog.fns.get(CLOSURE)
+    if cl is None:
+        ck.anchor(rule, "thread closure", None)
+        return
+    c = prog.ctx(cl)
+    user = call_blocks_suffix(c, "FnOnce::call_once")
+    frees = [bb for bb, t in c.cfg.calls(lambda t: (t.get("callee") or "") == "alloc::alloc::dealloc")
+             if mentions(c.args(bb)[0], c.prov, lambda z: z[0] == "call" and (z[1] or "").endswith("get_tls_ptr"))]
+    ck.ob(rule, "anchor|user-call-and-tls-free", len(user) == 1 and len(frees) >= 1, fn=CLOSURE, detail=f"user function calls {len(user)}, TLS frees {len(frees)}")
+    if len(user) == 1:
+        early = [fb for fb in frees if not c.cfg.dominates(user[0], fb) or user[0] in c.cfg.reachable_from(fb)]
+        ck.ob(rule, "tls-block-freed-only-after-the-user-function-returned", not early, fn=CLOSURE, site=c.site(early[0]) if early else None,
+              detail="the thread frees its thread-local block before (or around) the call of the user's function: if that function panics, the panic handler reads the freed block to find the stack and the join block and frees it a second time")
